@@ -248,7 +248,7 @@ def next (cfg : Cfg) (w : Nat) (c : WorkerCfg) (pc : Pc) (entry : Option Entry)
       match dst w with
       | none => some (.opOk .sync, { pc := .metaOp, dst := .set (some ⟨w, cfg.content c.inode⟩) })
       | some fw =>
-        if c.large || (!c.linked && sharedIno cfg.n dst w fw.ino) then
+        if c.large || sharedIno cfg.n dst w fw.ino then
           some (.opOk .sync, { pc := .metaOp, dst := .set (some ⟨w, cfg.content c.inode⟩) })
         else some (.opOk .sync, { pc := .metaOp, dst := .through (cfg.content c.inode) })
   | .metaOp =>
